@@ -18,3 +18,6 @@ package symbolz
 //@   requires forall i int :: 0 <= i && i < len(p.Function) ==> p.Function[i] != nil && p.Function[i].ID < 18446744073709551615
 //@   loop 2
 //@     invariant ids_below_next: p != nil && forall i int :: 0 <= i && i < len(p.Function) ==> p.Function[i] != nil && p.Function[i].ID < nextID
+//@   loop 3
+//@     step only_this_mapping: l.Mapping != m ==> same_elems(l.Line, atiter(3, l.Line))
+//@     step from_table: !same_elems(l.Line, atiter(3, l.Line)) ==> atiter(3, has(lines, l.Address)) && len(l.Line) == 1
